@@ -149,12 +149,16 @@ def _agg_shape(fn: ast.FunctionDef) -> str:
         "group_by = exp.Group(grouping_sets=[exp.GroupingSets(expressions=all_grouping_sets)])",
         "expression.set('group', group_by)",
         "expression = expression.select(*[x.expression for x in group_by_cols + cols], append=False)",
-        "return self._df.copy(expression=expression)",
         "if not self.group_by_cols or not isinstance(self.group_by_cols[0], (list, tuple, set)):",
     ]
     for n in needed:
         if n not in src:
             raise Untranslatable(ob, f"statement missing or changed: {n[:90]!r}")
+    # the result is a copy of the private DataFrame carrying the new expression (optionally recording display names)
+    if "return self._df.copy(expression=expression)" not in src and not (
+        "df = self._df.copy(expression=expression)" in src and src.rstrip().endswith("return df")
+    ):
+        raise Untranslatable(ob, "agg does not return self._df.copy(expression=expression)")
     return tag
 
 
